@@ -380,6 +380,7 @@ impl Case {
     /// the acknowledgement are stepped through
     fn wait_worker_point(&mut self) -> J {
         let deadline = std::time::Instant::now() + STEP_TIMEOUT;
+        let mut drain_grace = false;
         loop {
             if let Some(label) = self.ctl.at_point(Role::Worker) {
                 if label.starts_with("ack.") { self.ctl.step_point(Role::Worker); thread::sleep(Duration::from_micros(20)); continue; }
@@ -387,6 +388,13 @@ impl Case {
                 return J::A(vec![J::I(7), J::S(label.to_string())]);
             }
             match self.ctl.role_state(Role::Worker) {
+                RoleState::Draining if !drain_grace => {
+                    // the drain loop may end (it does not while the cache lives, in the code as it stands): give the
+                    // worker a moment to reach the point behind the loop before concluding that it keeps draining
+                    drain_grace = true;
+                    thread::sleep(Duration::from_millis(3));
+                    continue;
+                }
                 RoleState::AtGate | RoleState::Dead(_) | RoleState::Exited | RoleState::Draining => {
                     self.worker_at_point = false;
                     self.ctl.set_stepping(Role::Worker, false);
@@ -400,7 +408,7 @@ impl Case {
     }
 
     fn settle_draining(&self) {
-        if self.ctl.role_state(Role::Worker) == RoleState::Draining {
+        if self.ctl.role_state(Role::Worker) == RoleState::Draining && !self.worker_at_point {
             let deadline = std::time::Instant::now() + Duration::from_secs(5);
             while self.cache.verif_snapshot().queue_len > 0 && std::time::Instant::now() < deadline {
                 thread::sleep(Duration::from_micros(200));
